@@ -93,6 +93,14 @@ struct ACtx {
     ts: Vec<u64>,
     sched: Vec<ASched>,
     probes: Vec<Vec<AProbe>>,
+    #[serde(default)]
+    staged: Vec<AStaged>,
+}
+/// a probe whose id the chain proposes before it is submitted: pool stage "gap" / "proposed"
+#[derive(Deserialize, Clone, Debug)]
+struct AStaged {
+    stage: String,
+    tx: ATx,
 }
 
 #[derive(Clone)]
@@ -422,6 +430,45 @@ fn run_ctx(ci: usize, ctx: &ACtx, seed: u64) {
             emit(json!({"probe": {"ctx": ci, "m": m, "i": pi, "S": s, "D": d}}));
         }
         if m == n {
+            // ---- staged probes: block n+1 proposes their ids, block n+2 is empty; the pool sees them at stage Gap, then Proposed
+            if !ctx.staged.is_empty() {
+                let txs: Vec<TransactionView> = ctx.staged.iter().map(|sp_| probe_tx(&mut w, &sp_.tx)).collect();
+                let last_ts = GENESIS_TS + 1000 * ctx.ts.iter().cloned().max().unwrap_or(0);
+                let mut results: Vec<serde_json::Value> = vec![serde_json::Value::Null; txs.len()];
+                for (round, stage) in ["gap", "proposed"].iter().enumerate() {
+                    w.salt += 1;
+                    let spec = BlockSpec {
+                        proposals: if round == 0 {
+                            // the same transaction can be a probe of both stages: one id
+                            let mut ids: Vec<packed::ProposalShortId> = vec![];
+                            for t in &txs {
+                                if !ids.contains(&t.proposal_short_id()) {
+                                    ids.push(t.proposal_short_id());
+                                }
+                            }
+                            ids
+                        } else {
+                            vec![]
+                        },
+                        ts: last_ts + 2000 * (round as u64 + 1),
+                        nonce: w.salt,
+                        ..Default::default()
+                    };
+                    let blk = assemble(&sp, &spec).expect("staged block");
+                    let (ok, er) = submit_block(&sp, &blk);
+                    assert!(ok && sp.wait_pool_synced(), "staged block refused: {er}");
+                    for (i, st) in ctx.staged.iter().enumerate() {
+                        if st.stage == *stage {
+                            let (t_ok, t_err) = pool_test(&sp, &txs[i]);
+                            let (s_ok, s_err) = pool_submit(&sp, &txs[i]);
+                            let status = sp.shared.tx_pool_controller().get_tx_status(txs[i].hash()).ok().and_then(|r| r.ok()).map(|r| format!("{:?}", r.0)).unwrap_or_default();
+                            pool_remove(&sp, &txs[i]);
+                            results[i] = json!({"stage": stage, "test_accept": t_ok, "test_err": t_err, "submit": s_ok, "submit_err": s_err, "status": status});
+                        }
+                    }
+                }
+                emit(json!({"staged": {"ctx": ci, "results": results}}));
+            }
             break;
         }
         // ---- next context block: palette transactions scheduled at height m+1, in palette order
